@@ -27,6 +27,7 @@ from pony.orm import core, dbschema, dbapiprovider, sqltranslation, ormtypes
 from pony.orm.core import log_orm
 from pony.orm.dbapiprovider import DBAPIProvider, Pool, wrap_dbapi_exceptions
 from pony.orm.sqltranslation import SQLTranslator
+from binascii import hexlify
 from pony.orm.sqlbuilding import Value, SQLBuilder, join
 from pony.converting import timedelta2str
 from pony.utils import is_ident
@@ -49,6 +50,8 @@ class PGValue(Value):
         value = self.value
         if isinstance(value, bool):
             return value and 'true' or 'false'
+        if isinstance(value, bytes):
+            return "'\\x%s'::bytea" % hexlify(value).decode('ascii')  # X'..' is a bit-string constant in PostgreSQL
         return Value.__str__(self)
 
 class PGSQLBuilder(SQLBuilder):
